@@ -5,6 +5,10 @@
                     for every requested key k that is present with value v;
      soundness    : whatever node set is supplied, Verify = ok for (k, v) under root r implies that k
                     is present in the state with root r and (v is empty or v is its value).
+   Inputs starting with "hv" come from the host-function harness (lib/runtime/wazero): every query
+   went through ext_trie_blake2_256_verify_proof_version_1 (Q) or _version_2 (Q2:<ver>:...), whose
+   verdict is ok (returned 1) / err (returned 0): the model is Verify after ParseVersion(uint8(ver)),
+   the same completeness / soundness predicates are evaluated on the host function's verdicts.
    Known-finding guards: generate-absent-key (a requested key is absent: Generate returns
    ErrKeyNotFound), verify-empty-key (the empty key is confirmed through the root branch). *)
 open Model
@@ -69,7 +73,10 @@ let check inp obs =
   let probe = next c in
   if String.length probe <> 5 then fail "C05: bad probe %s" probe;
   let st = (probe.[1] = '1', probe.[2] = '1') and dfix = probe.[3] = '1' and gx = probe.[4] = '1' in
-  let ops = List.tl (split_ws inp) in
+  let host = (List.hd (split_ws inp) = "hv") in
+  let via_state = (List.hd (split_ws inp) = "sp") in
+  let inp_toks = if host || via_state then List.tl (split_ws inp) else split_ws inp in
+  let ops = List.tl inp_toks in
   let state = Hashtbl.create 16 and foreign = Hashtbl.create 16 in
   let st_root = ref "" and fo_root = ref "" and root = ref "" in
   let tree = ref None in
@@ -80,7 +87,9 @@ let check inp obs =
   let tags = Hashtbl.create 16 in
   let tag s = Hashtbl.replace tags s () in
   let nq = ref 0 in
-  tag ("v" ^ List.hd (split_ws inp));
+  tag ("v" ^ List.hd inp_toks);
+  if host then tag "host-function";
+  if via_state then tag "dot-state-GenerateTrieProof";
   List.iter (fun op ->
       let a = String.split_on_char ':' op in
       match a with
@@ -146,16 +155,29 @@ let check inp obs =
         expect c "N"; nodes := parse_nodes c; honest := false; complete := true; tag "adv-AA"
       | ["RF"] -> root := !fo_root; tag "foreign-root"
       | ["RS"] -> root := !st_root
-      | ["Q"; k; v] ->
+      | ["Q"; _; _] | ["Q2"; _; _; _] ->
+        let (ver, k, v) = (match a with
+            | ["Q"; k; v] -> (None, k, v)
+            | ["Q2"; ver; k; v] -> (Some (int_of_string ("0x" ^ ver) land 255), k, v)
+            | _ -> fail "C05: bad query") in
+        if (not host) && ver <> None then fail "C05: Q2 outside the host harness";
         expect c "Q";
         let r = next c in
         incr nq;
         let nb = List.map bytes_of_hex !nodes in
         let m = vres_str (verify hash_memo st dfix true true gx nb (bytes_of_hex !root) (bytes_of_hex k) (bytes_of_hex v)) in
+        (* the host functions: version_2 first parses the state version (only 0 and 1 exist), both
+           answer 1 exactly when Verify returns no error *)
+        let m = if not host then m else begin
+            tag (if ver = None then "host-v1" else "host-v2");
+            match ver with
+            | Some x when x > 1 -> tag "host-v2-bad-version"; "err"
+            | _ -> if m = "ok" || m = "panic" || m = "hang" then m else "err"
+          end in
         if m <> r then model_bad := (Printf.sprintf "verify(%s,%s)=%s model=%s" k v r m) :: !model_bad;
         let truth = if !root = !st_root then state else foreign in
         let present = Hashtbl.find_opt truth k in
-        tag ("verify-" ^ r);
+        if not host then tag ("verify-" ^ r) else tag ("host-verify-" ^ r);
         (* soundness *)
         if r = "ok" then begin
           let sound = (match present with Some tv -> v = "-" || v = tv | None -> false) in
@@ -166,7 +188,8 @@ let check inp obs =
           end else tag "confirmed-present"
         end;
         (* completeness *)
-        if (!honest || !complete) && !root = !st_root && r <> "ok" then begin
+        let badver = (match ver with Some x when x > 1 -> true | _ -> false) in
+        if (!honest || !complete) && !root = !st_root && r <> "ok" && not badver then begin
           match present with
           | Some tv when (v = tv || v = "-") && (!complete || List.mem k !requested) ->
             bad := ("-", Printf.sprintf "Verify(%s,%s)=%s with the %s proof although the state has this pair" k v r
@@ -185,4 +208,48 @@ let check inp obs =
     tags = String.concat "," tagl;
     detail = String.concat "; " (List.rev_map snd !bad @ List.map (fun s -> "MODEL " ^ s) (List.rev !model_bad)) }
 
-let () = run_driver check
+(* ---------------------------------------------------------------- vm_compute cross-check
+   The first queries of a sampled case re-evaluated inside Coq: Verify of the Gallina model on the
+   node set, root, key and value of the trace must give the verdict the implementation gave. *)
+let coq inp obs =
+  if obs = "hang" || obs = "panic" || String.length obs > 5000 then None else
+  let toks = split_ws inp in
+  if List.hd toks = "hv" || List.hd toks = "sp" then None else
+  try
+    let c = { tok = Array.of_list (split_ws obs); pos = 0 } in
+    let probe = next c in
+    let b ch = if ch = '1' then "true" else "false" in
+    let st_root = ref "" and fo_root = ref "" and root = ref "" in
+    let nodes = ref [] in
+    let terms = ref [] in
+    List.iter (fun op ->
+        match String.split_on_char ':' op with
+        | ["P"; _; _] | ["F"; _; _] -> ()
+        | ["W"] ->
+          expect c "W"; st_root := next c; fo_root := next c; root := !st_root; expect c "T";
+          if peek c = "nil" then ignore (next c) else ignore (parse_wnode c)
+        | ["G"; _] ->
+          expect c "G";
+          if next c = "ok" then nodes := parse_nodes c else nodes := []
+        | "AO" :: _ | "AX" :: _ | "AD" :: _ | ["AR"] | "AN" :: _ | ["AF"] | ["AA"] ->
+          expect c "N"; nodes := parse_nodes c
+        | ["RF"] -> root := !fo_root
+        | ["RS"] -> root := !st_root
+        | ["Q"; k; v] ->
+          expect c "Q";
+          let r = next c in
+          let code = (match r with
+              | "ok" -> Some "0" | "err:notfound" -> Some "40" | "err:mismatch" -> Some "41"
+              | "err:emptyproof" -> Some "42" | "err:noroot" -> Some "43" | _ -> None) in
+          (match code with
+           | Some cd when List.length !terms < 3 ->
+             terms := Printf.sprintf "vres_is (verify blake2b_256 (%s, %s) %s true true %s [%s] %s %s %s) %s"
+                 (b probe.[1]) (b probe.[2]) (b probe.[3]) (b probe.[4])
+                 (String.concat "; " (List.map (fun n -> coq_bytes (bytes_of_hex n)) !nodes))
+                 (coq_bytes (bytes_of_hex !root)) (coq_bytes (bytes_of_hex k)) (coq_bytes (bytes_of_hex v)) cd :: !terms
+           | _ -> ())
+        | _ -> ()) (List.tl toks);
+    (match !terms with [] -> None | l -> Some (String.concat " && " (List.rev l)))
+  with _ -> None
+
+let () = run_driver ~coq check
